@@ -18,7 +18,7 @@ from vmon.core import Quiet
 PROPERTY_ID = "C07"
 RULE = (
     "cases = (opcode, stack, altstack, tx context) single steps driven through the monitored dispatch-table entry; "
-    "generated programs of <= 40 operations (stack-aware generator, properly nested IF/NOTIF/ELSE/ENDIF with <= 1 ELSE, "
+    "generated programs of <= 40 operations (stack-aware generator, properly nested IF/NOTIF/ELSE/ENDIF incl. several ELSEs per IF, "
     "depth <= 4) run through Script.evaluate with a Tx built through the API; integers / byte strings through "
     "encode_num / decode_num; (locktime, sequence, version, operand encoding) grid points through OP_CLTV / OP_CSV. "
     "distinct = distinct concrete inputs by hash; non-trivial = the reference verdict was computed and compared for the "
@@ -27,7 +27,7 @@ RULE = (
 )
 ASSUMPTIONS = [
     "consensus rules only: minimal number encoding, MINIMALIF, CLEANSTACK, NULLDUMMY, DISCOURAGE_UPGRADABLE_NOPS are policy and not asserted",
-    "signature opcodes (CHECKSIG*, CHECKMULTISIG*) are out of scope here (C06); multiple ELSE per IF and unbalanced conditionals are not generated",
+    "signature opcodes (CHECKSIG*, CHECKMULTISIG*) are out of scope here (C06); unbalanced conditionals are not generated",
     "programs in which the reference trace meets a byte pattern that Script.evaluate treats as P2SH / witness v0 / taproot are discarded (counted as outside:*)",
     "when a per-opcode monitor already fired inside a program run, the program-level verdict difference is attributed to it (counted, not reported twice)",
 ]
@@ -71,7 +71,7 @@ GATES = {
     "evaluate-monitor-ran": ["Script.evaluate"],
     "programs-accepted-and-rejected": ["program:accept", "program:reject", "program:accept-share>=25%", "program:reject-share>=25%",
                                        "program:reject-at-final-stack-test", "program:reject-inside"],
-    "program-structure": ["program:with-conditional", "program:nested-conditional", "program:with-else", "program:dead-branch-with-conditional",
+    "program-structure": ["program:with-conditional", "program:nested-conditional", "program:with-else", "program:several-elses-in-one-if", "program:dead-branch-with-conditional",
                           "program:altstack", "program:hash", "program:timelock", "program:len>=30"],
     "final-stack-classes": ["final:" + t for t in FINAL_TOPS],
     "timelock-classes": ["tl:" + t for t in TL_CLASSES],
@@ -397,7 +397,7 @@ def _lib_tail_is_p2sh(cmds, i):
 
 
 class Analysis:
-    __slots__ = ("outside", "ok", "stack", "alt", "accept", "fail_reason", "executed", "maxdepth", "dead_if", "has_else", "fail_pc")
+    __slots__ = ("wide_timelock", "outside", "ok", "stack", "alt", "accept", "fail_reason", "executed", "maxdepth", "dead_if", "has_else", "fail_pc")
 
 
 def analyse(cmds, txk):
@@ -405,6 +405,7 @@ def analyse(cmds, txk):
     the quantifier (decided on the reference trace only)."""
     a = Analysis()
     a.outside = None
+    a.wide_timelock = None
     rc = R.TxCtx(*txk)
     m = R.Machine(rc)
     executed = set()
@@ -421,8 +422,7 @@ def analyse(cmds, txk):
             if c == 103:
                 a.has_else = True
             if fexec and c in TX_CODES and m.stack and len(m.stack[-1]) <= 5 and R.set_vch(m.stack[-1]) > 0xFFFFFFFF:
-                a.outside = "timelock-operand>2^32-1"
-                return a
+                a.wide_timelock = "5-byte-operand>2^32-1"  # compared like everything else (BIP65/BIP112 read 5-byte numbers)
         if not m.feed(c):
             a.fail_pc = i
             break
@@ -441,8 +441,11 @@ def analyse(cmds, txk):
                     return a
     a.ok = m.finish()
     if rc.oversize:
-        a.outside = "timelock-operand>5-bytes" if m.reason == "scriptnum-overflow" and cmds[a.fail_pc] in TX_CODES else "arith-operand>4-bytes"
-        return a
+        if m.reason == "scriptnum-overflow" and cmds[a.fail_pc] in TX_CODES:
+            a.wide_timelock = "operand>5-bytes"  # consensus fails the script; compared
+        else:
+            a.outside = "arith-operand>4-bytes"
+            return a
     a.stack, a.alt = m.stack, m.altstack
     a.fail_reason = m.reason
     a.executed = executed
@@ -501,6 +504,8 @@ def run_program(ctx, cmds, txk, origin="gen"):
         ctx.count("program:nested-conditional")
     if a.has_else:
         ctx.count("program:with-else")
+        if _has_multi_else(cmds):
+            ctx.count("program:several-elses-in-one-if")
     if a.dead_if:
         ctx.count("program:dead-branch-with-conditional")
     ex = a.executed
@@ -682,6 +687,28 @@ def _arbitrary(rng, txk):
     return [num_push(rng.choice([-2, -1, 0, 1, 2, 3, 7])), rng.choice([121, 122])]
 
 
+_multi_else = [0]
+
+
+def _has_multi_else(cmds):
+    st = []
+    for c in cmds:
+        if isinstance(c, int):
+            if c in (99, 100):
+                st.append(0)
+            elif c == 103 and st:
+                st[-1] += 1
+                if st[-1] > 1:
+                    return True
+            elif c == 104 and st:
+                st.pop()
+    return False
+
+
+def _note_multi_else():
+    _multi_else[0] += 1
+
+
 def gen_program(rng, txk):
     m = R.Machine(R.TxCtx(*txk))
     cmds = []
@@ -706,7 +733,9 @@ def gen_program(rng, txk):
             open_ifs.append(False)
             continue
         if open_ifs and r < 0.17:
-            if not open_ifs[-1] and rng.random() < 0.55:
+            if (not open_ifs[-1] and rng.random() < 0.55) or (open_ifs[-1] and rng.random() < 0.3):
+                if open_ifs[-1]:
+                    _note_multi_else()
                 emit(103)
                 open_ifs[-1] = True
             else:
@@ -777,6 +806,7 @@ def workload_programs(ctx, rng, count):
 IF_ITEMS = [
     [104], [81, 104], [82, 103, 83, 104, 84], [103, 83, 104], [99, 85, 103, 86, 104, 103, 87, 104, 88],
     [100, 106, 104, 103, 99, 89, 104, 104, 90], [b"\x07", 177, 103, 106, 104],
+    [82, 103, 83, 103, 84, 104, 85], [103, 103, 86, 104], [82, 103, 99, 83, 103, 84, 103, 85, 104, 103, 86, 103, 104, 87],
 ]
 SINGLE_TX = [(0, 0, 2), (500000000, (1 << 22) | 5, 2), (1, 0xFFFFFFFF, 1), (0xFFFFFFFF, 0x80000001, 2), (2, 2, 3)]
 
